@@ -563,7 +563,7 @@ def main():
         # (same effect as `git -C /repo apply`, without touching /repo; no evidence is written)
         tier = a[a.index("--tier") + 1] if "--tier" in a else "quick"
         src = os.path.abspath(a[2])
-        name = re.sub(r"[^A-Za-z0-9]+", "_", os.path.basename(os.path.dirname(os.path.dirname(src))) + "_" + os.path.basename(os.path.dirname(src)))
+        name = re.sub(r"[^A-Za-z0-9]+", "_", "_".join(src.split(os.sep)[-4:-1])) + "_" + hashlib.sha1(src.encode()).hexdigest()[:6]
         os.makedirs(os.path.join(BUILD, "try"), exist_ok=True)
         mp = os.path.join(BUILD, "try", name + ".patch")
         shutil.copy(src, mp)
